@@ -165,3 +165,44 @@ Example C20_each_exactly_once_refuted_repaired :
   handed_to MBroadcast (snd (run d13_h empty_db d13_ops)) = expected d13_h d13_ops /\
   expected d13_h d13_ops = [mkPK (hx "10") 100 0 1; mkPK (hx "11") 200 0 2].
 Proof. repeat split; reflexivity. Qed.
+
+(* The second tie to the source: queryAndHandleNewEonPubKeys (the query first, then the loop
+   with every guard and every return), broadcastEonPublicKey, database.GetKeyperIndex, the two
+   medley casts and the field order of p2pmsg.NewSignedEonPublicKey, translated statement by
+   statement from the Go source on this run (Generated/EonPKLoop.v; the loop is a fold whose
+   accumulator records an early return, the database result and the mechanisms are explicit
+   parameters), compute what the model computes: a polling tick of the model is the query
+   followed by the translated function - same calls in the same order with the same fields,
+   same returned error class - for every configuration, every row list and all answers. *)
+From Verif Require Import Generated.EonPKLoop Proofs.EonPKLoop.
+Theorem C20_translated_loop_agrees :
+  (forall h rows answers,
+      gen_query_and_handle h (Some rows) answers =
+      (fst (handle_rows h rows answers), ret_of_err (snd (handle_rows h rows answers)))) /\
+  (forall h answers, gen_query_and_handle h None answers = ([], RQuery)) /\
+  (forall h d enum answers,
+      step h d (OpTick enum answers) =
+      (fst (get_and_delete d enum),
+       outcome_of_gen (gen_query_and_handle h (Some (snd (get_and_delete d enum))) answers))) /\
+  (forall h d answers,
+      step h d OpTickFails = (d, outcome_of_gen (gen_query_and_handle h None answers))) /\
+  (forall h j cs0 answers,
+      gen_loop_body h j (cs0, answers) =
+      let '(cs, ans', e) := handle_row h j answers in ((cs0 ++ cs, ans'), flow_of_err e)) /\
+  (forall h pk st, gen_broadcast_eon_public_key h pk st = gen_env_call (CBroadcast (h_instance h) pk) st) /\
+  (forall self ks, snd (gen_get_keyper_index self ks) = is_member self ks) /\
+  (forall x, gen_int64_to_uint64_safe x = safe_cast x /\ gen_int32_to_uint64_safe x = safe_cast x).
+Proof.
+  split; [exact gen_query_and_handle_rows|]. split; [exact gen_query_and_handle_fails|].
+  split; [exact step_tick_is_translated|]. split; [exact step_tick_fails_is_translated|].
+  split; [exact gen_loop_body_agrees|]. split; [exact gen_broadcast_agrees|].
+  split; [exact gen_get_keyper_index_agrees|].
+  exact (fun x => conj (gen_int64_cast_agrees x) (gen_int32_cast_agrees x)).
+Qed.
+Print Assumptions C20_translated_loop_agrees.
+
+(* the translated function on the D13 rows: both keys are broadcast and nil is returned *)
+Example C20_translated_loop_agrees_nonvacuous :
+  gen_query_and_handle d13_h (Some [mkJ (hx "10") 1 100 [hx "aa"; hx "bb"] 0; mkJ (hx "11") 2 200 [hx "aa"; hx "bb"] 0]) []
+  = ([(CBroadcast 42 (mkPK (hx "10") 100 0 1), true); (CBroadcast 42 (mkPK (hx "11") 200 0 2), true)], RNil).
+Proof. reflexivity. Qed.
